@@ -20,6 +20,8 @@ import (
 var s3hAliases = map[string]string{
 	"zstd":    "z:64/fs",
 	"gzip":    "g:64/sql",
+	"gzipfs":  "g:0/fs",  // default sample size (64 KiB): parts of 1 KiB and more really get compressed
+	"zstdsql": "z:0/sql",
 	"tink":    "t/fs",
 	"ec":      "e:2:1:1024/fs",
 	"cache":   "c:1000000/fs",
@@ -30,7 +32,7 @@ var s3hAliases = map[string]string{
 }
 
 // S3hStackNames lists every stack the thorough tier rotates through.
-var S3hStackNames = []string{"fs", "sql", "zstd", "gzip", "tink", "ec", "cache", "outbox", "deep", "ecdeep", "outdeep", "named"}
+var S3hStackNames = []string{"fs", "sql", "zstd", "gzip", "tink", "ec", "cache", "outbox", "deep", "ecdeep", "outdeep", "named", "gzipfs", "zstdsql"}
 
 func newS3hStackMore(dir, name string) *verifx.Stack {
 	if name == "named" {
